@@ -19,7 +19,7 @@ for d in sorted(glob.glob("/verif/seeded/C*")):
 L = ["# Seeded changes", "",
      "Each directory holds one change to aurora-opensource/au written by a sub-agent that was given only the text of one property and a scratch git worktree "
      "(nothing from /verif), plus — from the second round on — the one-line summaries of the earlier changes for that property so as to produce something different. "
-     "Suffixes: A/B round 1, C/D round 2, E/F round 3, G/H round 4.",
+     "Suffixes: A/B round 1, C/D round 2, E/F round 3, G/H round 4, I/J round 5.",
      "`patch.diff` is the change, `demo*.cc`/`.sh` the author's demonstration (passes on the unmodified tree, fails with the change), `NOTES.md` the author's notes, "
      "`meta.json` what it breaks and what it needs in order to manifest, `confirm.log` my own confirmation (tools/confirm_seeded.sh: scratch worktree, demo passes clean / fails patched, "
      "the whole existing suite builds and passes with the patch), `result.json` what the checks said (tools/run_seeded.py: patch applied to a scratch worktree, checks pointed at it with VF_REPO).",
